@@ -263,6 +263,9 @@ func (e *Engine) load(dirs []string, extra []string) error {
 			if _, dup := e.assumed[fn.String()]; dup {
 				return fmt.Errorf("%s:%d: %s has both a verified contract here and an assumed contract in /verif/contracts/assumed: callers would silently lose the assumed clauses; keep one", c.File, c.Line, fn.String())
 			}
+			if old, dup := e.byFull[fn.String()]; dup && old != c {
+				return fmt.Errorf("%s:%d: a second contract for %s (the first is at %s:%d): callers would see only the later one; merge them", c.File, c.Line, fn.String(), old.File, old.Line)
+			}
 			e.fnOf[c] = fn
 			e.byFull[fn.String()] = c
 		}
